@@ -835,6 +835,11 @@ pub mod verif {
         pub submitted_io: usize,
     }
 
+    /// The private `filter_leaves_changeset`.
+    pub fn filter_leaves(changeset: &mut Vec<(Key, Option<PageNumber>)>) {
+        super::filter_leaves_changeset(changeset)
+    }
+
     fn index_of(leaves: &[(Key, u32)], fanout: usize) -> Index {
         let mut index = Index::default();
         for (i, group) in leaves.chunks(fanout.max(1)).enumerate() {
